@@ -43,12 +43,20 @@ Definition meta_obs_eqb (o : get_obs) (m : meta) : bool :=
   beqb (g_spy o) (m_spy m) && N.eqb (g_rate o) (m_rate m) && beqb (g_units o) (m_units m).
 
 (* compare one model output with the observation attached to the step; [with_tl] = also the timeline *)
-Definition cmp_step (with_tree with_tl : bool) (h : hop) (o : st_out) : option string :=
+Definition den_eqb (a b : tnode) : bool :=
+  pm_eqb (pnz (pnorm (t_den a))) (pnz (pnorm (t_den b))).
+
+(* [strict]: compare trees structurally (totals and zero-valued frames included); otherwise only the
+   per-stack self values — after a cache eviction or restart the reloaded trees have recomputed totals
+   and may have lost zero-total frames (C04 / known finding scaled-totals-reloaded), which the
+   plain-map model does not reproduce *)
+Definition cmp_step (strict with_tree with_tl : bool) (h : hop) (o : st_out) : option string :=
   match h, o with
   | HPut _ _ _ _ _ _ ok, OutPut ok' => if Bool.eqb ok ok' then None else Some "Put accepted/rejected differently"%string
   | HGet _ _ _ None, OutGet None => None
   | HGet _ _ _ (Some ob), OutGet (Some r) =>
-      if with_tree && negb (t_eqb (g_tree ob) (go_tree r)) then Some "Get: tree differs from the model"%string
+      if with_tree && negb (if strict then t_eqb (g_tree ob) (go_tree r) else den_eqb (g_tree ob) (go_tree r))
+      then Some "Get: tree differs from the model"%string
       else if with_tree && negb (meta_obs_eqb ob (go_meta r)) then Some "Get: metadata differs from the model"%string
       else if with_tl && negb (tl_eqb ob (go_timeline r)) then Some "Get: timeline differs from the model"%string
       else None
@@ -60,19 +68,22 @@ Definition cmp_step (with_tree with_tl : bool) (h : hop) (o : st_out) : option s
   | _, _ => Some "internal: output kind mismatch"%string
   end.
 
-Fixpoint run_cmp (with_tree with_tl : bool) (st : st_state) (hs : list hop) : option string :=
+Fixpoint run_cmp (strict with_tree with_tl : bool) (st : st_state) (hs : list hop) : option string :=
   match hs with
   | [] => None
   | h :: hs' =>
       let '(st', o) := hop_step st h in
-      match cmp_step with_tree with_tl h o with
+      match cmp_step strict with_tree with_tl h o with
       | Some w => Some w
-      | None => run_cmp with_tree with_tl st' hs'
+      | None => run_cmp strict with_tree with_tl st' hs'
       end
   end.
 
+Definition has_nop (hs : list hop) : bool :=
+  existsb (fun h => match h with HNop => true | _ => false end) hs.
+
 Definition model_verdict (with_tree with_tl : bool) (hs : list hop) : verdict :=
-  match run_cmp with_tree with_tl st_init hs with
+  match run_cmp (negb (has_nop hs)) with_tree with_tl st_init hs with
   | None => Ok
   | Some w => ModelDiffers w
   end.
